@@ -152,7 +152,8 @@ def tasks(tier, seed=0):
             out.append(('small', e, first))
         out.append(('small', e, -1))
     out += [('shapes', k) for k in range(8)]
-    out += [('short',), ('nested-short',), ('hostile-names',)]
+    out += [('short',), ('nested-short',), ('hostile-names',),
+            ('shaped-nesting',)]
     out += [('siblings', n) for n in ((64, 256, 1024, 2048)
                                       if tier == 'thorough'
                                       else (64, 256, 1024))]
@@ -234,6 +235,12 @@ def inputs(task, tier, seed=0):
                 args = (b'\x00\x00' + bytes([len(raw)]) + raw + b'\x00' + bad)
                 yield 'hostile queue name %r' % name, faults.frame_wrap(
                     1, 1, b'\x00\x32\x00\x0a' + args)
+    elif kind == 'shaped-nesting':
+        wraps = dict(faults.envelopes())
+        for label, body in faults.shaped_nesting(32):
+            yield label + ' (method argument table)', wraps['table-body'](body)
+            props = b'\x20\x00' + struct.pack('>I', len(body)) + body
+            yield label + ' (headers property)', wraps['header-flags'](props)
     elif kind == 'siblings':
         wraps = dict(faults.envelopes())
         for label, body in faults.sibling_lies(task[1]):
